@@ -606,8 +606,8 @@ V('mt2-section-flag', ['C11'], MP, "                out.append(defs.SpaceToken(o
 # ---- rules added after seed round 5 (sa/rules/r5.py)
 V('ex1c-dedup', ['C03', 'C18'], P, "        for extr in self.extracted:\n            if not extr:\n                continue\n",
   "        seen_pos = set()\n        for extr in self.extracted:\n            if not extr or extr[0].pos in seen_pos:\n                continue\n            seen_pos.add(extr[0].pos)\n", 'EX1c')
-V('um2-env-skip', ['C05'], P, "            if not (math or name in self.unknowns):\n                self.unknowns.append(name)\n            return out\n        env = self.the_environments[name]",
-  "            if not (math or name in self.unknowns):\n                self.unknowns.append(name)\n            buf.skip_space()\n            return out\n        env = self.the_environments[name]", 'UM2')
+V('um2-env-skip', ['C05'], P, "                self.unknowns.append(name)\n            return out\n        env = self.the_environments[name]",
+  "                self.unknowns.append(name)\n            buf.skip_space()\n            return out\n        env = self.the_environments[name]", 'UM2')
 V('sbl2-direct', ['C12'], 'yalafi/packages/babel.py', "def h_begin_otherlang(parser, buf, mac, args, delim, pos):\n    lang = translate_lang(parser.get_text_expanded(args[0]).strip())",
   "def h_begin_otherlang(parser, buf, mac, args, delim, pos):\n    lang = translate_lang(parser.get_text_direct(args[0]).strip())", 'SBL2')
 V('ab3r-shortcut', ['C13'], U, "    return o_txt + i_txt[last:], o_pos + i_pos[last:]", "    if not o_txt:\n        return i_txt, i_pos\n    return o_txt + i_txt[last:], o_pos + i_pos[last:]", 'AB3r')
@@ -617,3 +617,4 @@ V('th9-empty-piece', ['C16'], GH, "    def f(m):\n        return pre + m.group(1
 V('sh3b-no-nosp', ['C18'], SH, "                            nosp=cmdline.no_specials, ienc=cmdline.encoding)\n\ndef skip_file", "                            ienc=cmdline.encoding)\n\ndef skip_file", 'SH3b')
 V('sh1-no-ienc', ['C09'], SH, "                            nosp=cmdline.no_specials, ienc=cmdline.encoding)\n\ndef skip_file", "                            nosp=cmdline.no_specials)\n\ndef skip_file", 'SH1')
 V('em7-inline-only', ['C03', 'C08'], MP, "            if not tok or type(tok) is defs.ParagraphToken:\n                buf.next()\n                out = (utils.latex_error('missing end of maths'", "            if not tok or (type(tok) is defs.ParagraphToken\n                                    and env_stop is None):\n                buf.next()\n                out = (utils.latex_error('missing end of maths'", 'EM7')
+V('uk7-empty-name', ['C19'], P, "            if name and not (math or name in self.unknowns):\n                self.unknowns.append(name)\n            return out", "            if not (math or name in self.unknowns):\n                self.unknowns.append(name)\n            return out", 'UK7')
